@@ -121,7 +121,12 @@ class Sender(Entity):
         self.net, self.dest, self.log = net, dest, log
 
     def handle_event(self, event):
-        label = event.context["metadata"]["label"]
+        md = event.context["metadata"]
+        if event.event_type == "msg":                      # reverse traffic arriving at the sender
+            if self.log is not None:
+                self.log.append((md.get("label"), md.get("sent_at"), self.now.nanoseconds))
+            return None
+        label = md["label"]
         return self.net.send(self, self.dest, "msg", payload={"label": label, "sent_at": self.now.nanoseconds})
 
 
@@ -132,6 +137,8 @@ class Receiver(Entity):
 
     def handle_event(self, event):
         md = event.context["metadata"]
+        if event.event_type != "msg" and getattr(self, "reply_to", None) is not None and md.get("label") != "keepalive":
+            return self.net.send(self, self.reply_to, "msg", payload={"label": md["label"], "sent_at": self.now.nanoseconds})
         if md.get("label") != "keepalive":
             self.log.append((md.get("label"), md.get("sent_at"), self.now.nanoseconds))
 
@@ -142,7 +149,7 @@ EXTRA_MS = 250
 
 def network_faults(sym, tier):
     r = Result()
-    kind = sym.choice("kind", 3)              # 0 partition, 1 +latency, 2 loss(1.0)
+    kind = sym.choice("kind", 4)              # 0 partition, 1 +latency, 2 loss(1.0), 3 one-way partition a -> b
     nf = 1 + sym.choice("n_faults_minus_1", 2)
     ws = _windows(sym, nf)
     cancel = sym.choice("cancel_handle", nf + 1)
@@ -151,15 +158,18 @@ def network_faults(sym, tier):
     net = Network(name="net")
     rcv = Receiver("b", rlog)
     other = Receiver("c", olog)
-    snd = Sender("a", net, rcv, None)
+    alog = []
+    snd = Sender("a", net, rcv, alog)
+    rcv.net, rcv.reply_to = net, snd
     snd2 = Sender("a2", net, other, None)
     net.add_link(snd, rcv, NetworkLink(name="a-b", latency=ConstantLatency(BASE_MS / 1000.0)))
+    net.add_link(rcv, snd, NetworkLink(name="b-a", latency=ConstantLatency(BASE_MS / 1000.0)))
     net.add_link(snd2, other, NetworkLink(name="a2-c", latency=ConstantLatency(BASE_MS / 1000.0)))
     fs = FaultSchedule()
     handles = []
     for (s, e) in ws:
-        if kind == 0:
-            handles.append(fs.add(NetworkPartition(["a"], ["b"], start=s, end=e)))
+        if kind in (0, 3):
+            handles.append(fs.add(NetworkPartition(["a"], ["b"], start=s, end=e, asymmetric=(kind == 3))))
         elif kind == 1:
             handles.append(fs.add(InjectLatency("a", "b", extra_ms=EXTRA_MS, start=s, end=e)))
         else:
@@ -171,6 +181,8 @@ def network_faults(sym, tier):
     for i, p in enumerate(ps):
         evs.append(mk_event(p * S, f"m{i}", snd))
         evs.append(mk_event(p * S, f"o{i}", snd2))
+        if kind in (0, 3):
+            evs.append(mk_event(p * S, f"r{i}", rcv))          # reverse direction b -> a
     evs.append(mk_event(9 * S, "keepalive", other))
     sim.schedule(evs)
     sim.run()
@@ -181,7 +193,13 @@ def network_faults(sym, tier):
         oth = [(s_, t_) for (l, s_, t_) in olog if l == f"o{i}"]
         if oth != [(p * S, p * S + BASE_MS * 1_000_000)]:
             r.bad("other_link_unaffected", i, oth)
-        if kind in (0, 2):
+        if kind in (0, 3):
+            rev = [(s_, t_) for (l, s_, t_) in alog if l == f"r{i}"]
+            if kind == 0 and cov and rev:
+                r.bad("two_way_partition_blocks_the_reverse_direction", {"at_s": p, "windows": ws, "cancelled": list(skip)})
+            if (kind == 3 or not cov) and rev != [(p * S, p * S + BASE_MS * 1_000_000)]:
+                r.bad("reverse_direction_delivered_normally_when_not_blocked", {"kind": kind, "at_s": p, "got": rev, "windows": ws, "cancelled": list(skip)})
+        if kind in (0, 2, 3):
             if cov and got:
                 r.bad("message_during_fault_window_is_dropped", {"kind": kind, "at_s": p, "windows": ws, "cancelled": list(skip)})
             if not cov and got != [(p * S, p * S + BASE_MS * 1_000_000)]:
@@ -278,11 +296,11 @@ HARNESSES = [
                            "cancelled handle": "none or any one"},
       outside=["faults added after the run started", "queue-fronted targets (see c06_queued_target)"]),
     H(name="c06_network_faults", fn=network_faults, shape="S", budget=lambda tier: 900.0 if tier == "quick" else 3000.0,
-      cubes=lambda tier: [{"kind": k, "n_faults_minus_1": a, "cancel_handle": c} for k in range(3) for a in range(2) for c in range(a + 2)],
+      cubes=lambda tier: [{"kind": k, "n_faults_minus_1": a, "cancel_handle": c} for k in range(4) for a in range(2) for c in range(a + 2)],
       require=lambda tier: ["probe_inside_window", "overlapping_windows"],
       functions=["NetworkPartition/InjectLatency/InjectPacketLoss.generate_events", "Network.partition/is_partitioned/handle_event/send", "Partition.heal",
                  "NetworkLink.handle_event/_calculate_delay", "_CompoundLatency.get_latency"],
-      bounds=lambda tier: {"faults on link a->b": "1-2 of one kind, symbolic windows", "probe messages": 2 if tier == "quick" else 3, "loss rate": 1.0, "extra latency ms": EXTRA_MS},
+      bounds=lambda tier: {"faults on link a->b": "1-2 of one kind (two-way partition, one-way partition, extra latency, loss), symbolic windows; reverse-direction probes for the partitions", "probe messages": 2 if tier == "quick" else 3, "loss rate": 1.0, "extra latency ms": EXTRA_MS},
       outside=["probabilistic loss rates in (0,1)", "RandomPartition (seeded random schedule)", "mixed fault kinds on one link"]),
     H(name="c06_capacity_fault", fn=capacity_fault, shape="S", budget=lambda tier: 600.0,
       require=lambda tier: ["grant_held_across_window_edge"], classify=cap_classify,
